@@ -28,17 +28,19 @@ Definition patched (body : patch_body) (o : json) : option json :=
 Definition patch_err (body : patch_body) : err :=
   match body with PJq _ => EJqFailed | _ => EPatchFailed end.
 
+(* documented effect of the three create variants on the object [k] *)
+Definition effect_create (c : cluster) (m : create_mode) (k : key) (obj : json) : cluster * option err :=
+  match cl_get k c, m with
+  | None, _ => (cl_set k obj c, None)                 (* all three create a missing object *)
+  | Some _, CPlain => (c, Some EAlreadyExists)        (* Create: an existing object is an error *)
+  | Some _, CIfNotExists => (c, None)                 (* CreateIfNotExists: left as it is *)
+  | Some _, COrUpdate => (cl_set k obj c, None)       (* CreateOrUpdate: replaced *)
+  end.
+
 (* documented effect of one operation: new cluster, and the error it reports if any *)
 Definition effect (c : cluster) (o : op) : cluster * option err :=
   match o with
-  | OCreate m obj =>
-    let k := key_of_object obj in
-    match cl_get k c, m with
-    | None, _ => (cl_set k obj c, None)                 (* all three create a missing object *)
-    | Some _, CPlain => (c, Some EAlreadyExists)        (* Create: an existing object is an error *)
-    | Some _, CIfNotExists => (c, None)                 (* CreateIfNotExists: left as it is *)
-    | Some _, COrUpdate => (cl_set k obj c, None)       (* CreateOrUpdate: replaced *)
-    end
+  | OCreate m obj => effect_create c m (key_of_object obj) obj
   | ODelete _ k => (cl_del k c, None)                   (* the three modes: the object is gone; a missing one is fine *)
   | OPatch k body _ ignore_missing =>                   (* the subresource does not change which object is patched *)
     match cl_get k c with
@@ -72,7 +74,7 @@ Definition ops_of (ds : list doc) : list op :=
 Definition err_eqb (a b : err) : bool :=
   match a, b with
   | EAlreadyExists, EAlreadyExists | ENotFound, ENotFound | EPatchFailed, EPatchFailed
-  | EJqFailed, EJqFailed | EOther, EOther => true
+  | EJqFailed, EJqFailed | ENotServed, ENotServed | EOther, EOther => true
   | _, _ => false
   end.
 
